@@ -4,8 +4,8 @@
 Require Extraction.
 Require Import ExtrOcamlBasic.
 From MC Require Import Model.Base Model.Generated Model.Store Model.Memc Model.Codec
-  Model.Handler Model.Conn Model.Run Model.Conc Model.Server.
-From Coq Require Import NArith Strings.Byte.
+  Model.Handler Model.Conn Model.Run Model.Conc Model.Server Model.PolConc.
+From Coq Require Import NArith ZArith Strings.Byte.
 
 Extraction Language OCaml.
 Extraction "model.ml"
@@ -14,4 +14,6 @@ Extraction "model.ml"
   Conn.cn_buf Conn.cn_skip
   Server.new_server Server.sv_step Server.mem_nat Server.sv_active
   Conc.run_sched Conc.mprog_of Conc.new_thread Conc.th_done Conc.mop Conc.op Conc.opres Conc.shared
+  PolConc.prun_sched PolConc.new_gthread PolConc.list_client PolConc.g_done PolConc.pop PolConc.pores PolConc.pshared
+  Z.of_N Z.to_N Z.opp Base.two64 N.sub
   N.add N.mul N.div_eucl N.of_nat N.to_nat Byte.to_N Byte.of_N Base.blen.
